@@ -5,6 +5,7 @@ import PowHsm.Spec.C13
 import PowHsm.Generated.Enums
 import PowHsm.Proofs.Emits
 import PowHsm.Proofs.ConformTracks
+import PowHsm.Proofs.QueryReply
 namespace PowHsm
 namespace Props.C13
 open Generated
@@ -287,6 +288,38 @@ theorem blockchain_state_verbatim (w : World) (st : BcState) (h : (getBlockchain
       · rw [← h4]; rfl
       · rw [← h4]; rfl
       · rw [← h4]; rfl
+
+/-! ### the last step: from the device layer's values to the reply's fields
+
+For a manager with no link repair pending, each query handler that the device layer serves answers
+errorcode 0 with exactly the documented field names holding exactly the device layer's values (which the
+theorems above tie to the device's answers); `Proofs/QueryReply.lean`. -/
+
+open Ledger Dongle Comm in
+theorem getPubKey_reply_fields (c : Codes) (path : List Nat) (w : World) (k : Bytes) (hw : w.commIssue = false)
+    (h : (getPublicKey path w).val = .ok k) :
+    (getPubkey c path w).val = .ok (0, [("pubKey", hexJ k)]) :=
+  (getPubkey_reply c path w k hw h).1
+
+open Ledger Dongle Comm in
+theorem blockchainParameters_reply_fields (c : Codes) (w : World) (p : Params) (hw : w.commIssue = false)
+    (h : (getSignerParameters w).val = .ok p) :
+    (blockchainParameters c w).val = .ok (0, [("parameters", .obj [
+      ("checkpoint", hexJ p.checkpoint), ("minimum_difficulty", .int p.minDifficulty),
+      ("network", .str p.network.toLower)])]) :=
+  blockchainParameters_reply c w p hw h
+
+open Ledger Dongle Comm in
+theorem blockchainState_reply_fields (c : Codes) (w : World) (st : BcState) (hw : w.commIssue = false)
+    (h : (getBlockchainState w).val = .ok st) : (blockchainState c w).val = .ok (stateReply st) :=
+  blockchainState_reply c w st hw h
+
+open Ledger Dongle Comm in
+theorem signerHeartbeat_reply_fields (c : Codes) (req : List (String × Json)) (w : World) (hb : Heartbeat)
+    (hw : w.commIssue = false) (h : (signerHeartbeat (udBytes req) w).val = .ok (some hb)) :
+    (signerHb c req w).val = .ok (0, [("pubKey", hexJ hb.pubKey), ("message", hexJ hb.message),
+      ("tweak", hexJ hb.tweak), ("signature", .obj [("r", hexJ hb.r), ("s", hexJ hb.s)])]) :=
+  signerHb_reply c req w hb hw h
 
 end Props.C13
 end PowHsm
